@@ -1,10 +1,11 @@
 #!/bin/bash
-# tools/matrix3.sh [PROP...] : round-3 incoming mutants against their owning quick check (private worktrees)
+# tools/matrix3.sh [PROP...] : incoming mutants of round $ROUND (default 3; tag c, round 4: tag d) against their owning quick check (private worktrees)
 cd /verif; mkdir -p /tmp/confirm/matrix
+ROUND=${ROUND:-3}; TAG=$( [ "$ROUND" = 4 ] && echo d || echo c )
 for P in "$@"; do for k in 1 2 3; do
-  patch=seeded/_incoming3/$P/change_$k.diff
-  [ -f seeded/_incoming3/$P/change_${k}_ported.diff ] && patch=seeded/_incoming3/$P/change_${k}_ported.diff
+  patch=seeded/_incoming$ROUND/$P/change_$k.diff
+  [ -f seeded/_incoming$ROUND/$P/change_${k}_ported.diff ] && patch=seeded/_incoming$ROUND/$P/change_${k}_ported.diff
   [ -f $patch ] || continue
-  echo "$P-c$k $patch $P"
+  echo "$P-$TAG$k $patch $P"
 done; done | xargs -P ${PAR:-2} -L 1 bash -c 'out=$(tools/try_mutant_wt.sh $1 $2 2>&1); echo "$out" > /tmp/confirm/matrix/$0.$2.log; echo "$out" | tail -1 | sed "s/exit=//" > /tmp/confirm/matrix/$0.$2.rc'
-for P in "$@"; do for k in 1 2 3; do echo -n "$P-c$k=$(cat /tmp/confirm/matrix/$P-c$k.$P.rc 2>/dev/null) "; done; done; echo
+for P in "$@"; do for k in 1 2 3; do echo -n "$P-$TAG$k=$(cat /tmp/confirm/matrix/$P-$TAG$k.$P.rc 2>/dev/null) "; done; done; echo
